@@ -1,0 +1,11 @@
+//go:build !verif
+
+package formula
+
+func verifNop() {}
+
+func verifScanHook(s *Scanner) {}
+
+func verifResolveHook(r *Runner, v Expression, res *interface{}, err *error) func() {
+	return verifNop
+}
